@@ -253,6 +253,43 @@ def _block_matrix(rep, blk, shape):
     return out
 
 
+def section_solver():
+    """C16: the second-quantized Sylvester solver as an exact operator identity H_i V - V H_j = Y (residual simplified in number-ordered form),
+    for number-conserving H_0 over every combination of statistics, diagonal elements (Hermitian right-hand side, as the algorithm supplies) and off-diagonal blocks."""
+    global cases
+    from pymablock.second_quantization import solve_sylvester_2nd_quant
+    w, e, e2, dl, Uc = sympy.symbols("omega epsilon epsilon_2 delta U", positive=True)
+    m, f, b, g = LadderOp("m"), FermionOp("f"), BosonOp("b"), FermionOp("g")
+    sz, sm = pauli.SigmaZ("s"), pauli.SigmaMinus("s")
+    n_m, n_f, n_b, n_g = NumberOperator(m), NumberOperator(f), NumberOperator(b), NumberOperator(g)
+    problems = [
+        ("boson + fermion, diagonal", ((w * n_b + e * n_f,),), [[(b + Dagger(b)) * n_f]], (0, 0, 1)),
+        ("boson + spin, diagonal", ((w * n_b + e * sz / 2,),), [[(b + Dagger(b)) * sz]], (0, 0, 1)),
+        ("anharmonic boson, two-photon term", ((w * n_b + Uc * n_b ** 2,),), [[b ** 2 * (1 + n_b) + Dagger(b ** 2 * (1 + n_b)) + Dagger(b) * n_b + n_b * b]], (0, 0, 1)),
+        ("ladder + fermion, ladder power without fermion flip", ((w * n_m + e * n_f,),), [[(m + Dagger(m)) * n_f]], (0, 0, 1)),
+        ("ladder + fermion, off-diagonal block", ((w * n_m + e * n_f,), (w * n_m + e2 * n_f + dl,)), [[Dagger(m) * n_f + 3 * m * (1 - n_f) + f * m]], (0, 1, 1)),
+        ("ladder + spin, longitudinal drive", ((w * n_m + e * sz / 2,),), [[(m + Dagger(m)) * sz]], (0, 0, 1)),
+        ("ladder + boson + fermion", ((w * n_m + Uc * n_b ** 2 + e * n_f,),), [[(m ** 2 * Dagger(b) + Dagger(m) ** 2 * b) * (1 + n_f)]], (0, 0, 1)),
+        ("two fermions with interaction, hopping and pairing", ((e * n_f + e2 * n_g + Uc * n_f * n_g,),), [[Dagger(f) * g + Dagger(g) * f + 2 * f * g + 2 * Dagger(g) * Dagger(f)]], (0, 0, 1)),
+        ("ladder + two fermions, number-dependent hop", ((w * n_m + e * n_f + e2 * n_g,),), [[Dagger(m) * Dagger(f) * g * (1 + n_m) + Dagger(Dagger(m) * Dagger(f) * g * (1 + n_m))]], (0, 0, 1)),
+        ("ladder + two fermions, off-diagonal block (no symmetry of Y)", ((w * n_m + e * n_f + e2 * n_g,), (w * n_m + e * n_f + e2 * n_g + dl,)),
+         [[Dagger(m) * Dagger(f) * g * (1 + n_m) + m * Dagger(g) * f + n_f]], (0, 1, 1)),
+        ("2x2 block with spin flips", ((w * n_b, w * n_b + dl), (w * n_b + e * sz / 2,)), [[sm * b + Dagger(sm)], [Dagger(b) * sz + 2]], (0, 1, 1)),
+    ]
+    for name, eigs, Y, index in problems:
+        cases += 1
+        try:
+            V = solve_sylvester_2nd_quant(eigs)(sympy.Matrix(Y), index)
+            res = sympy.diag(*eigs[index[0]]) * V - V * sympy.diag(*eigs[index[1]]) - sympy.Matrix(Y)
+            for i in range(res.rows):
+                for j in range(res.cols):
+                    entry = NOF.from_expr(res[i, j]).simplify()
+                    if not entry.is_zero:
+                        fail("solver", "second-quantized solver: H_i V - V H_j - Y is not the zero operator", problem=name, entry=(i, j), residual=str(entry)[:200])
+        except Exception as ex:
+            fail("solver", "second-quantized solver raised", problem=name, error=repr(ex)[:300])
+
+
 def section_secondq():
     """C07: operator-valued block_diagonalize against numpy block_diagonalize of the truncated matrices, on Fock states far from the edge."""
     global cases
@@ -272,6 +309,10 @@ def section_secondq():
          Dagger(c) * d + Dagger(d) * c + c * e + Dagger(e) * Dagger(c) + 2 * (d * e + Dagger(e) * Dagger(d)), 2, 3, None),
         ("spin, two fermions and a boson", [a, s, c, d], R(3, 7) * Ns + Na + R(5, 11) * Nc + R(2, 3) * Nd,
          sx + (Dagger(c) * d + Dagger(d) * c) * (1 + a + Dagger(a)), 9, 3, None),
+        ("ladder mode driving a fermion number (ladder power without a fermion flip)", [LadderOp("m"), c], NumberOperator(LadderOp("m")) + R(3, 7) * Nc,
+         (LadderOp("m") + Dagger(LadderOp("m"))) * (1 + 2 * Nc) + R(1, 2) * (c + Dagger(c)), 11, 3, None),
+        ("ladder mode and a spin, longitudinal drive", [LadderOp("m"), s], NumberOperator(LadderOp("m")) + R(5, 11) * Ns,
+         (LadderOp("m") + Dagger(LadderOp("m"))) * (Ns - R(1, 2)) + R(1, 3) * sx, 11, 3, None),
         ("matrix-valued, two blocks", [a], sympy.Matrix([[Na, 0], [0, Na + R(5, 3)]]), sympy.Matrix([[a + Dagger(a), 2 * a], [2 * Dagger(a), Na]]), 12, 3, [0, 1]),
     ]
     import os
